@@ -202,26 +202,37 @@ theorem completion_under_rejection_stmt (arg : CompleteArg) : CompletionUnderRej
 /-! ## one request, one response (the leaf request as a whole) -/
 
 /-- **response_exactly_once.** A task request whose pipeline loses no completion under `cfg` gets
-exactly one response — from the completion callback; `Process` returns `nil`, so
-`TaskHandler.process` does not answer a second time — for every stage tree and schedule; and a
-request that is refused before a pipeline exists gets exactly one (from `TaskHandler.process`). -/
-theorem response_exactly_once (cfg : Cfg) (rn tolerated : Bool) (root : Stage) (hc : root.clean cfg = true)
-    (s : State) (hr : Reachable cfg (init root) s) (ht : Terminal s) :
-    (runResponses ⟨false, rn⟩ tolerated s).length = 1 ∧ (noPipelineResponses ⟨false, rn⟩ .refused).length = 1 := by
+exactly one response for every stage tree and schedule — whether or not the group-by tag value
+collect fails and answers first: every responder (the collect, the completion callback) goes through
+`SendResponse`'s CAS, and `Process` returns `nil`, so `TaskHandler.process` does not answer again.
+A request that is refused before a pipeline exists gets exactly one (from `TaskHandler.process`). -/
+theorem response_exactly_once (cfg : Cfg) (rn tolerated collectFails : Bool) (root : Stage)
+    (hc : root.clean cfg = true) (s : State) (hr : Reachable cfg (init root) s) (ht : Terminal s) :
+    (runResponses ⟨false, rn, false⟩ tolerated collectFails s).length = 1 ∧
+      (noPipelineResponses ⟨false, rn, false⟩ .refused).length = 1 := by
   obtain ⟨f, hf, _⟩ := exactly_once_clean cfg root hc s hr ht
   refine ⟨?_, rfl⟩
-  cases tolerated <;> simp [runResponses, hf, responses, Leaf.sendResponse, Leaf.init]
+  cases tolerated <;> cases collectFails <;>
+    simp [runResponses, sendResponseCalls, hf, Leaf.sendResponse, Leaf.init]
 
-/-- … and it carries an error whenever a stage failed or panicked in the run (unless the failure is
-the not-found error the metadata callback answers as an empty result) -/
-theorem response_error_carried (sr rn : Bool) (root : Stage) (hc : root.clean ⟨.first, sr, rn⟩ = true)
-    (s : State) (hr : Reachable ⟨.first, sr, rn⟩ (init root) s) (ht : Terminal s) (hf : s.sh.failed = true) :
-    runResponses ⟨false, rn⟩ false s = [true] := by
+/-- … and it carries an error whenever a stage failed or panicked in the run or the collect failed
+(unless the failure is the not-found error the metadata callback answers as an empty result) -/
+theorem response_error_carried (sr rn collectFails : Bool) (root : Stage) (hc : root.clean ⟨.first, sr, rn⟩ = true)
+    (s : State) (hr : Reachable ⟨.first, sr, rn⟩ (init root) s) (ht : Terminal s)
+    (hf : s.sh.failed = true ∨ collectFails = true) :
+    runResponses ⟨false, rn, false⟩ false collectFails s = [true] := by
   rcases invNP_reachable hc hr with hi | hm
   · exact absurd ht (initPhase_not_terminal hi)
   · obtain ⟨f, hfd, _, _, _, _, hfb⟩ := mainNP_terminal hm (invOnce_reachable hr) ht
-    have harg : f.arg = true := error_carried sr rn root s hr f (by rw [hfd]; simp) (by rw [hfb]; exact hf)
-    simp [runResponses, hfd, responses, Leaf.sendResponse, Leaf.init, harg]
+    cases hcf : collectFails with
+    | true => simp [runResponses, sendResponseCalls, hfd, Leaf.sendResponse, Leaf.init]
+    | false =>
+      have hfl : s.sh.failed = true := by
+        rcases hf with h | h
+        · exact h
+        · rw [hcf] at h; cases h
+      have harg : f.arg = true := error_carried sr rn root s hr f (by rw [hfd]; simp) (by rw [hfb]; exact hfl)
+      simp [runResponses, sendResponseCalls, hfd, Leaf.sendResponse, Leaf.init, harg]
 
 /-! ## non-vacuity -/
 
@@ -343,8 +354,16 @@ theorem plan_panic_pooled_nonroot :
 would be answered twice (the seeded change c19-6): the callback's response and the handler's -/
 theorem two_responses_if_process_returns_error :
     (runSched ⟨.first, true, true⟩ (init treeS) (List.replicate 14 0)).map
-      (fun s => (terminalB s, runResponses ⟨true, true⟩ false s, runResponses ⟨false, true⟩ false s))
+      (fun s => (terminalB s, runResponses ⟨true, true, false⟩ false false s, runResponses ⟨false, true, false⟩ false false s))
       = some (true, [true, true], [true]) := by decide
+
+/-- if the failing group-by collect answered through the unguarded `sendResponse` (the seeded change
+c19-8), the CAS would not be taken and the completion callback would answer the same request again:
+every stage succeeds, two responses -/
+theorem two_responses_if_collect_is_unguarded :
+    (runSched ⟨.first, true, true⟩ (init (Stage.mk .inline false .ok [])) (List.replicate 8 0)).map
+      (fun s => (terminalB s, runResponses ⟨false, true, true⟩ false true s, runResponses ⟨false, true, false⟩ false true s))
+      = some (true, [true, false], [true]) := by decide
 
 /-- the same panic in the pooled child's own task is recovered and completed -/
 theorem recovered_pooled_panic :
@@ -381,6 +400,11 @@ theorem tie_taskHandlerProcess : Generated.C19.taskHandlerProcessSteps = taskHan
 /-- after the pipeline was executed `processDataSearch` / `processMetadataSuggest` return `nil`: only the
 completion callback answers (hypothesis of `response_exactly_once`) -/
 theorem tie_processReturnsNil : Generated.C19.processReturnsPipelineErr = false := by decide
+/-- nobody but `SendResponse` calls the unguarded `sendResponse`: every responder goes through the CAS
+(hypothesis `collectUnguarded = false` of `response_exactly_once`) -/
+theorem tie_noUnguardedResponder : Generated.C19.unguardedSendResponseCallers = [] := by decide
+theorem tie_collectGroupByTagValues :
+    Generated.C19.collectGroupByTagValuesSteps = collectGroupByTagValuesOrder := by decide
 
 /-- what the model decides about error propagation for the source as it is *now*: with the
 repaired step order the full-strength theorem applies, with the original one its negation -/
